@@ -250,7 +250,11 @@ def main():
                 res["skip"] = out
                 results.append(res)
                 continue
-            data = bytes.fromhex(case["hex"])
+            if "file" in case:                     # large archives are handed over as files
+                with open(case["file"], "rb") as fh:
+                    data = fh.read()
+            else:
+                data = bytes.fromhex(case["hex"])
             lim = case.get("limits")
             if lim:
                 ax.configure_archive_extraction(max_memory_size=lim[0])
